@@ -9,7 +9,7 @@ use std::f64::consts::PI;
 
 pub fn monitor() -> Monitor {
   Monitor { id: "C16",
-    rule: "(a) every cell of depths <= 7 (quick) / <= 9 (thorough) + class-sampled cells of every deeper depth: true largest centre-to-vertex distance (reference geometry) vs largest_center_to_vertex_distance at the centre, at 2 random interior positions and at 2 positions next to the border of the cell (the bound is for the cell containing the position, wherever the position lies in it); (b) cones (centre from the sphere/pole/seam/transition generators, radius 0.02..40 cell sizes capped at pi/2, and one cone in six with a radius in (0.3, pi] at depths 1..5, longitude outside [0,2pi) one time in eight): the *_with_radius bound (single and multi-depth forms) vs the true value of every cell whose centre is within the radius — cells found by hashing sample points of the cone (brute force over all cells for depth <= 5); (c) best_starting_depth: monotone, equal to a linear scan of the thresholds located by bisection, exact at the tabulated limits (read through the verification hook: r = limit -> shallower depth, one ulp below -> that depth, bisected threshold == limit), refusal of radii >= the depth-0 limit consistent with has_best_starting_depth, and containment of 96 boundary points of the cone in the centre cell + neighbours for radii at (1-{1e-12..0.3}) x threshold with centres aimed at seams, poles, transition latitude; plus, per depth, 6 witness cones built on the thinnest cell of the depth found by the reference geometry (width W): centre just outside one edge, radius W(1 +- {3e-4,3e-3,3e-2}) and the largest radius still answered with that depth (centre 1e-6 W outside), probe through the nearest point of the opposite edge. Non-trivial = cell on a base-cell border/corner, cone containing a pole or straddling the transition latitude / LAT_OF_SQUARE_CELL, radius within 5% of a threshold.",
+    rule: "(a) every cell of depths <= 7 (quick) / <= 9 (thorough) + class-sampled cells of every deeper depth: true largest centre-to-vertex distance (reference geometry) vs largest_center_to_vertex_distance at the centre, at 2 random interior positions and at 2 positions next to the border of the cell (the bound is for the cell containing the position, wherever the position lies in it); (b) cones (centre from the sphere/pole/seam/transition generators, radius 0.02..40 cell sizes capped at pi/2, and one cone in six with a radius in (0.3, pi] at depths 1..5, longitude outside [0,2pi) one time in eight): the *_with_radius bound (single and multi-depth forms) vs the true value of every cell whose centre is within the radius — cells found by hashing sample points of the cone (brute force over all cells for depth <= 5); (c) best_starting_depth: monotone, equal to a linear scan of the thresholds located by bisection, exact at the tabulated limits (read through the verification hook: r = limit -> shallower depth, one ulp below -> that depth, bisected threshold == limit), refusal of radii >= the depth-0 limit consistent with has_best_starting_depth, and containment of 96 boundary points of the cone in the centre cell + neighbours for radii at (1-{1e-12..0.3}) x threshold with centres aimed at seams, poles, transition latitude; plus, per depth, 6 witness cones built on the thinnest cell of the depth found by the reference geometry (width W): centre just outside one edge, radius W(1 +- {3e-4,3e-3,3e-2}) and the largest radius still answered with that depth (centre 1e-6 W outside; for widths above 1e-5 rad also 4 ulps below the threshold with the centre 3e-13 rad outside and the probe 1e-13 rad inside the cone), probe through the nearest point of the opposite edge. Non-trivial = cell on a base-cell border/corner, cone containing a pole or straddling the transition latitude / LAT_OF_SQUARE_CELL, radius within 5% of a threshold.",
     assumptions: &["reference cell geometry; Layer::hash (C01) and Layer::neighbours (C04) for the containment claim", "distances carry an absolute slack of 1e-15 rad and a relative one of 1e-12"],
     run, replay }
 }
@@ -149,6 +149,12 @@ pub fn witness_cases(thr: &[f64]) -> Vec<Case> {
       let cv = [vp[0] * cd - t[0] * sd, vp[1] * cd - t[1] * sd, vp[2] * cd - t[2] * sd];
       let (clon, clat) = (cv[1].atan2(cv[0]).rem_euclid(TWO_PI), cv[2].atan2((cv[0] * cv[0] + cv[1] * cv[1]).sqrt()));
       v.push(Case::new("bsd").f("r", thr[d as usize] * (1.0 - 1e-9)).f("lon", clon).f("lat", clat).f("qlon", q.0).f("qlat", q.1).u("wd", d as u64).s("cls", "witness-adaptive")); }
+    // sharp adaptive (depths whose thinnest width is above 1e-5 rad): the radius is 4 ulps below the threshold, the centre 3e-13 rad behind p
+    // and the probe 1e-13 rad inside the cone: a tabulated limit exceeding the true width by 5e-13 rad is seen
+    if w > 1e-5 { let delta = 3e-13; let (sd, cd) = f64::sin_cos(delta);
+      let cv = [vp[0] * cd - t[0] * sd, vp[1] * cd - t[1] * sd, vp[2] * cd - t[2] * sd];
+      let (clon, clat) = (cv[1].atan2(cv[0]).rem_euclid(TWO_PI), cv[2].atan2((cv[0] * cv[0] + cv[1] * cv[1]).sqrt()));
+      v.push(Case::new("bsd").f("r", crate::util::nudge(thr[d as usize], -4)).f("lon", clon).f("lat", clat).f("qlon", q.0).f("qlat", q.1).u("wd", d as u64).f("probe_in", 1e-13).s("cls", "witness-adaptive-sharp")); }
   }
   v
 }
@@ -188,7 +194,7 @@ pub fn judge_bsd(ctx: &mut Ctx, c: &Case, thr: &[f64]) {
   if c.get("qlon").is_some() { // probe on the geodesic from the centre through q, at distance r(1 - 1e-9)
     let (vc, vq) = (v3((lon, lat)), v3((c.gf("qlon"), c.gf("qlat")))); let cq = dot(vc, vq);
     let mut t = [vq[0] - cq * vc[0], vq[1] - cq * vc[1], vq[2] - cq * vc[2]]; let nt = norm(t);
-    if nt > 0.0 { t = [t[0] / nt, t[1] / nt, t[2] / nt]; let (sr, cr) = f64::sin_cos(r * (1.0 - 1e-9));
+    if nt > 0.0 { t = [t[0] / nt, t[1] / nt, t[2] / nt]; let (sr, cr) = f64::sin_cos(if c.get("probe_in").is_some() { r - c.gf("probe_in") } else { r * (1.0 - 1e-9) });
       let pv = [vc[0] * cr + t[0] * sr, vc[1] * cr + t[1] * sr, vc[2] * cr + t[2] * sr];
       let p = (pv[1].atan2(pv[0]).rem_euclid(TWO_PI), pv[2].atan2((pv[0] * pv[0] + pv[1] * pv[1]).sqrt()));
       let h = layer.hash(p.0, p.1); if !ng.contains(&h) { bad = Some((p, h)); }
